@@ -27,12 +27,23 @@ type gen struct {
 	odd    bool // also emit forms a later validation stage would reject (odd argument counts and kinds); no AST is promised
 	toks   []lexeme
 	nogaps bool
+	wide   bool // with plain: one space at EVERY boundary where whitespace is allowed (before commas, inside parentheses, ...)
 	gaps   []int // byte offsets (in the last joined text) of whitespace gaps: start,end pairs
 }
 
 func (g *gen) emit(s string)      { g.toks = append(g.toks, lexeme{s: s}) }
 func (g *gen) emitGlued(s string) { g.toks = append(g.toks, lexeme{s: s, glue: true}) }
 func (g *gen) emitGap(s string)   { g.toks = append(g.toks, lexeme{s: s, gap: true}) }
+
+// afterDot: the segment behind a dot of a segmented name. The parser skips whitespace there (db. rp. m), so the
+// wide layout and some of the random layouts put a gap behind the dot.
+func (g *gen) afterDot(n string) {
+	if g.wide || (!g.plain && g.r.chance(1, 5)) {
+		g.emit(g.identSpelling(n))
+		return
+	}
+	g.emitGlued(g.identSpelling(n))
+}
 
 func (g *gen) kw(w string) {
 	if g.plain || g.r.chance(1, 2) {
@@ -101,7 +112,7 @@ func (g *gen) join() string {
 			w := ""
 			if g.plain {
 				// canonical layout: one space except before , ) and after (
-				if req || !(t.s == "," || t.s == ")" || prev == "(" || t.s == ";") {
+				if req || g.wide || !(t.s == "," || t.s == ")" || prev == "(" || t.s == ";") {
 					w = " "
 				}
 			} else if req || g.r.chance(2, 3) {
@@ -164,7 +175,7 @@ var strPool = []string{"server01", "us-west", "", "it's", "a\\b", "line\nbreak",
 	"\uFEFF", "a\uFEFFb", "\uFFFD", "nb\u00a0sp", "ls\u2028\u2029", "zw\u200b", "%d%s", "100%", "2000-13-01", "2000-02-30T00:00:00Z", "2000-01-01 00:00:61", "2000-01-01T00:00:00+02:00"}
 
 // ---- expressions ----
-var rePool = []string{"cpu.*", "^a$", "a/b", "^(us|eu)-", "[a-z]+\\d", "", "x y", "é", "^((?i)abc)$", "^[^\\s\\S]$", "a\\\\b", "^(?i:x)y$"}
+var rePool = []string{"cpu.*", "^a$", "a/b", "^(us|eu)-", "[a-z]+\\d", "", "x y", "é", "^((?i)abc)$", "^[^\\s\\S]$", "a\\\\b", "^(?i:x)y$", "a\\\\/b", "c:\\\\/tmp", "\\\\\\\\/"}
 
 func (g *gen) regexLit() *influxql.RegexLiteral {
 	p := pick(g.r, rePool)
@@ -181,7 +192,10 @@ var durPool = []durSpell{{"10s", 10 * time.Second}, {"1h30m", 90 * time.Minute},
 	{"1ns", 1}, {"2w", 14 * 24 * time.Hour}, {"1d", 24 * time.Hour}, {"0s", 0}, {"90m", 90 * time.Minute}, {"1w2d3h4m5s6ms7u8ns", 9*24*time.Hour + 3*time.Hour + 4*time.Minute + 5*time.Second + 6*time.Millisecond + 7*time.Microsecond + 8},
 	// the largest whole number of each unit: written in a smaller unit, printed in the larger one
 	{"106750d", 106750 * 24 * time.Hour}, {"153722820m", 153722820 * time.Minute}, {"2562047h", 2562047 * time.Hour}, {"9223372036s", 9223372036 * time.Second},
-	{"010m", 10 * time.Minute}, {"1m08s", 68 * time.Second}}
+	{"010m", 10 * time.Minute}, {"1m08s", 68 * time.Second},
+	// the micro sign in a later component, every unit in a later component
+	{"1s500µ", time.Second + 500*time.Microsecond}, {"2ms250µ", 2*time.Millisecond + 250*time.Microsecond}, {"1h30µ", time.Hour + 30*time.Microsecond}, {"1µ1u1ns", 2*time.Microsecond + 1},
+	{"1w1d1h1m1s1ms1µ1ns", 8*24*time.Hour + time.Hour + time.Minute + time.Second + time.Millisecond + time.Microsecond + 1}}
 
 func (g *gen) varRef() *influxql.VarRef {
 	n := 1
@@ -195,7 +209,7 @@ func (g *gen) varRef() *influxql.VarRef {
 			g.ident(segs[i])
 		} else {
 			g.emitGlued(".")
-			g.emitGlued(g.identSpelling(segs[i]))
+			g.afterDot(segs[i])
 		}
 	}
 	v := &influxql.VarRef{Val: strings.Join(segs, ".")}
@@ -487,24 +501,24 @@ func (g *gen) measurementName(m *influxql.Measurement, allowRegex bool) {
 		m.Database, m.RetentionPolicy, m.Name = g.name(), g.name(), g.name()
 		g.ident(m.Database)
 		g.emitGlued(".")
-		g.emitGlued(g.identSpelling(m.RetentionPolicy))
+		g.afterDot(m.RetentionPolicy)
 		g.emitGlued(".")
-		g.emitGlued(g.identSpelling(m.Name))
+		g.afterDot(m.Name)
 	case form == 2:
 		m.Database, m.Name = g.name(), g.name()
 		g.ident(m.Database)
 		g.emitGlued("..")
-		g.emitGlued(g.identSpelling(m.Name))
+		g.afterDot(m.Name)
 	case form == 3:
 		m.RetentionPolicy, m.Name = g.name(), g.name()
 		g.ident(m.RetentionPolicy)
 		g.emitGlued(".")
-		g.emitGlued(g.identSpelling(m.Name))
+		g.afterDot(m.Name)
 	case form == 4 && allowRegex:
 		m.Database, m.RetentionPolicy = g.name(), g.name()
 		g.ident(m.Database)
 		g.emitGlued(".")
-		g.emitGlued(g.identSpelling(m.RetentionPolicy))
+		g.afterDot(m.RetentionPolicy)
 		g.emitGlued(".")
 		g.emitGlued("/^m/")
 		m.Regex = &influxql.RegexLiteral{Val: regexp.MustCompile("^m")}
@@ -632,7 +646,7 @@ func (g *gen) selectBody(depth int, targetMode int) *influxql.SelectStatement {
 			m.Database, m.RetentionPolicy = g.name(), g.name()
 			g.ident(m.Database)
 			g.emitGlued(".")
-			g.emitGlued(g.identSpelling(m.RetentionPolicy))
+			g.afterDot(m.RetentionPolicy)
 			g.emitGlued(".")
 			g.emitGlued(":")
 			g.kwGlued("MEASUREMENT")
@@ -1358,6 +1372,9 @@ func (g *gen) statement(kind string) influxql.Statement {
 				g.emit(",")
 			}
 			d := fmt.Sprintf("udp://h%d:%d", i, 9000+g.r.intn(100))
+			if g.r.chance(1, 3) { // a destination is any string: quotes, escapes and line breaks included
+				d = pick(g.r, strPool)
+			}
 			g.str(d)
 			s.Destinations = append(s.Destinations, d)
 		}
